@@ -138,20 +138,33 @@ def cval(t: Term) -> Fraction:
     return t.data
 
 
+def _coef_core(t: Term):
+    """t = q * core with q rational (the constant factor of a product)."""
+    if t.op == "mul" and t.args[-1].op == "const":
+        rest = t.args[:-1]
+        return t.args[-1].data, (rest[0] if len(rest) == 1 else _mk("mul", rest, None, t.sort))
+    return Fraction(1), t
+
+
 def add(*ts: Term) -> Term:
-    flat: list[Term] = []
+    """n-ary sum; flattens, folds constants and combines like terms (q1*c + q2*c -> (q1+q2)*c)."""
+    acc: dict[Term, Fraction] = {}
     c = Fraction(0)
-    for t in ts:
+    stack = list(reversed(ts))
+    while stack:
+        t = stack.pop()
         if t.op == "const":
             c += t.data
         elif t.op == "add":
-            for a in t.args:
-                if a.op == "const":
-                    c += a.data
-                else:
-                    flat.append(a)
+            stack.extend(reversed(t.args))
         else:
-            flat.append(t)
+            q, core = _coef_core(t)
+            acc[core] = acc.get(core, 0) + q
+    flat: list[Term] = []
+    for core, q in acc.items():
+        if q == 0:
+            continue
+        flat.append(core if q == 1 else mul(core, const(q)))
     if not flat:
         return const(c)
     if c != 0:
@@ -172,28 +185,40 @@ def sub(a: Term, b: Term) -> Term:
 
 
 def mul(*ts: Term) -> Term:
-    flat: list[Term] = []
+    """n-ary product; flattens, folds constants, combines equal bases into powers; the constant
+    factor (if any) is kept as the LAST argument."""
+    powers: dict[Term, int] = {}
     c = Fraction(1)
-    for t in ts:
+    stack = list(reversed(ts))
+    while stack:
+        t = stack.pop()
         if t.op == "const":
             c *= t.data
+            if c == 0:
+                return ZERO
         elif t.op == "mul":
-            for a in t.args:
-                if a.op == "const":
-                    c *= a.data
-                else:
-                    flat.append(a)
+            stack.extend(reversed(t.args))
+        elif t.op == "pow":
+            powers[t.args[0]] = powers.get(t.args[0], 0) + t.data
         else:
-            flat.append(t)
-    if c == 0:
-        return ZERO
+            powers[t] = powers.get(t, 0) + 1
+    flat: list[Term] = []
+    for base, e in powers.items():
+        if e == 0:
+            continue
+        if e == 1:
+            flat.append(base)
+        elif e > 0:
+            flat.append(_mk("pow", (base,), e, base.sort))
+        else:
+            flat.append(_mk("div", (ONE, base if e == -1 else _mk("pow", (base,), -e, base.sort)), None, "R"))
     if not flat:
         return const(c)
+    flat.sort(key=lambda a: a.id)
     if c != 1:
         flat.append(const(c))
     if len(flat) == 1:
         return flat[0]
-    flat.sort(key=lambda a: a.id)
     sort = "I" if all(a.sort == "I" or (a.op == "const" and a.data.denominator == 1) for a in flat) else "R"
     return _mk("mul", flat, None, sort)
 
